@@ -38,6 +38,28 @@ theorem identity_names :
 example : identityDecode [0x00, 0x41, 0x30, 0x42, 0x7F] = [0x41, 0x3042] := by decide
 example : specIdentity 2 [0x00, 0x41, 0x30, 0x42, 0x7F] = [0x41, 0x3042] := by decide
 
+/-! ## Which Unicode map: character collection × writing mode -/
+
+/-- A font without ToUnicode whose collection is not served by an embedded TrueType cmap reads the
+collection's CID → Unicode table **of the writing mode of its encoding CMap** (vertical CMaps have their own
+CIDs for rotated punctuation and brackets).  `COLLECTION_MAP_USES_WMODE` and `TTF_CODINGS` are regenerated
+from `PDFCIDFont.__init__`. -/
+theorem collection_map_follows_wmode (ordering coding enc : String) (hasTTF vertical : Bool)
+    (h : Gen.CIDFont.TTF_CODINGS.contains coding = false) :
+    selectUnicodeMap .absent ordering coding enc hasTTF vertical true = .collection coding vertical := by
+  unfold selectUnicodeMap
+  simp only [h, Gen.CIDFont.COLLECTION_MAP_USES_WMODE, Bool.false_eq_true, if_false, if_true, Bool.true_and]
+
+/-- A ToUnicode stream always wins; Adobe-Identity / Adobe-UCS use the embedded TrueType cmap. -/
+theorem unicode_map_priority (ordering coding enc : String) (hasTTF v shipped : Bool) :
+    selectUnicodeMap .stream ordering coding enc hasTTF v shipped = .file ∧
+    selectUnicodeMap .absent "Identity" "Adobe-Identity" enc true v shipped = .ttf ∧
+    selectUnicodeMap .absent "UCS" "Adobe-UCS" enc true v shipped = .ttf := by
+  refine ⟨rfl, ?_, ?_⟩ <;> simp [selectUnicodeMap, Gen.CIDFont.TTF_CODINGS]
+
+example : selectUnicodeMap .absent "Japan1" "Adobe-Japan1" "90ms-RKSJ-V" false true true
+    = .collection "Adobe-Japan1" true := by decide
+
 /-! ## Segmentation: table (trie) CMaps -/
 
 /-- A string that is a concatenation of codes of the CMap, followed by an incomplete code (possibly
@@ -54,6 +76,19 @@ theorem trie_decode_codes (root : TDict) (cs : List (Bytes × Nat))
     trieDecode root (cs.map (·.1)).flatten = cs.map (·.2) := by
   have := decode_codes root [] root (by simp [walk]) cs hcs
   simpa using this
+
+/-- A trie built by `FileCMap.add_code2cid` from a prefix-free code table has exactly the table's codes:
+every entry is a code with its CID … -/
+theorem trie_build_codes (tab : List (Bytes × Nat)) (t : TDict) (hp : PrefixFree tab)
+    (hb : buildTrie tab [] = .ok t) : ∀ e ∈ tab, walk t e.1 = some (.leaf e.2) :=
+  (buildTrie_walk tab [] t hp hb).1
+
+/-- … hence a string made of codes of the table decodes, with the trie built from the table, to their CIDs
+(segmentation by the flat code table = `CMap.decode` on the built trie). -/
+theorem trie_build_decode (tab : List (Bytes × Nat)) (t : TDict) (hp : PrefixFree tab)
+    (hb : buildTrie tab [] = .ok t) (cs : List (Bytes × Nat)) (hcs : ∀ e ∈ cs, e ∈ tab) :
+    trieDecode t (cs.map (·.1)).flatten = cs.map (·.2) :=
+  trie_decode_codes t cs (fun e he => trie_build_codes tab t hp hb e (hcs e he))
 
 /-- non-vacuity: a mixed one/two-byte CMap (0x41 ↦ 1, 0x81 0x40 ↦ 7), string `41 8140 41 81`. -/
 example :
@@ -92,6 +127,29 @@ theorem bfchar_map (es : List (Bytes × Bytes)) (m : UMap) :
 theorem bfrange_map (es : List REntry) (m : UMap) (h : es.all entryOk = true) :
     foldEntries bfrangeEntry (chop3 (es.flatMap renderREntry)) m = .ok (putAll (es.flatMap rangePairs) m) :=
   bfrange_fold es m h
+
+/-- bfrange increment in ISO 32000-1 9.10.3 wording ("the last byte of the string shall be incremented"):
+wherever that is defined (the last byte does not pass 0xFF), the carry form used by `specMap` — and by
+`tounicode_parse_spec`, hence by the parser — is exactly that string. -/
+theorem bfrange_inc (d x : Bytes) (k : Nat) (h : incLast d k = some x) : incBE d k = x :=
+  incBE_eq_incLast d x k h
+
+/-- … so for a range whose last byte never overflows, every code `lo + i` gets the destination with only its
+last byte incremented by `i`. -/
+theorem bfrange_inc_pairs (lo hi d : Bytes) (hov : ∀ i, i < nunpack hi + 1 - nunpack lo → (incLast d i).isSome) :
+    rangePairs ⟨lo, hi, .inc d⟩ =
+      (List.range (nunpack hi + 1 - nunpack lo)).map
+        (fun i => (((nunpack lo + i : Nat) : Int), utf16Ignore ((incLast d i).getD []))) := by
+  simp only [rangePairs]
+  apply List.map_congr_left
+  intro i hi'
+  have hlt := List.mem_range.mp hi'
+  obtain ⟨x, hx⟩ := Option.isSome_iff_exists.mp (hov i hlt)
+  rw [bfrange_inc d x i hx, hx]
+  rfl
+
+example : incLast [0x30, 0x42] 3 = some [0x30, 0x45] ∧ incBE [0x30, 0x42] 3 = [0x30, 0x45] ∧
+    incLast [0x00, 0xFE] 2 = none ∧ incBE [0x00, 0xFE] 2 = [0x01, 0x00] := by decide
 
 /-- non-vacuity: a program with a bfchar section (1- and 2-byte sources, a surrogate pair target), a
 bfrange increment that carries out of the low byte, and an array. -/
@@ -140,6 +198,36 @@ def exampleW : List WEntry :=
 
 example : (List.range 14).map (specWidth exampleW none) =
     [5, 501 / 2, 600, 1000, 1000, 1000, 1000, 1000, 1000, 1000, 700, 700, 700, 1000] := by decide +kernel
+
+/-! ## Vertical metrics: W2 / DW2 -/
+
+/-- For any interleaving of the two `W2` syntaxes (`c [w1y vx vy …]` and `c1 c2 w1y vx vy`), `get_widths2`
+succeeds and builds exactly the specified dictionary. -/
+theorem widths2_map_spec (es : List W2Entry) :
+    getWidths2 (renderW2 es) = .ok (toW2Map (specWidth2Pairs es).reverse) := by
+  unfold getWidths2
+  rw [widths2_fold es []]
+  simp
+
+/-- The vertical advance `w1y` used for a cid is the latest `W2` entry covering it, else `DW2[1]`, else
+−1000 (default regenerated from pdffont.py). -/
+theorem widths2_spec (es : List W2Entry) (dw2 : Option (Rat × Rat)) (cid : Nat) :
+    (getWidths2 (renderW2 es)).toOption.map (fun m => glyphWidthV m dw2 cid) = some (specWidthV es dw2 cid) := by
+  rw [widths2_map_spec]
+  simp only [Except.toOption, Option.map_some, Option.some.injEq]
+  unfold glyphWidthV specWidthV
+  rw [lookup_toW2Map]
+  cases (specWidth2Pairs es).reverse.lookup (cid : Int) with
+  | none => simp [Gen.CIDFont.DW2_DEFAULT]
+  | some w => simp
+
+/-- non-vacuity: `[1 [-500 250 800 -600 300 810] 10 12 -700 500 880]`. -/
+def exampleW2 : List W2Entry :=
+  [.list 1 [((-500, true), (250, true), (800, true)), ((-600, true), (300, true), (810, true))],
+   .range 10 12 ((-700, true), (500, true), (880, true))]
+
+example : (List.range 13).map (specWidthV exampleW2 (some (880, -900))) =
+    [-900, -500, -600, -900, -900, -900, -900, -900, -900, -900, -700, -700, -700] := by decide +kernel
 
 /-! ## Advances (pen movement) -/
 
